@@ -111,6 +111,15 @@ Theorem C20_allowlist_written_under_node_state :
 Proof. split; [vm_compute; reflexivity|vm_compute; discriminate]. Qed.
 Print Assumptions C20_allowlist_written_under_node_state.
 
+(** setup_channel publishes the ready channel in the channel map and writes the tracker and the channel
+    record while it still holds the map: no request on that channel can run (and store a newer record)
+    between the publication and setup_channel's own write of the initial state.  Releasing the map
+    before the store is written (seeded change C20k) makes this fail. *)
+Theorem C20_setup_channel_writes_under_the_map :
+  forallb (nested_under [map_class] store_class []) setup_progs = true /\ setup_progs <> [].
+Proof. split; [vm_compute; reflexivity|vm_compute; discriminate]. Qed.
+Print Assumptions C20_setup_channel_writes_under_the_map.
+
 Example C20_nested_under_rejects_late_write :
   nested_under [1] 8 [] [Acq (1, 0); Touch (1, 0); Rel (1, 0); Acq (8, 0); Rel (8, 0)] = false /\
   nested_under [1] 8 [] [Acq (1, 0); Acq (8, 0); Rel (8, 0); Rel (1, 0)] = true.
